@@ -50,11 +50,21 @@ theorem accepted_archive_is_safe (H : Bytes → Bytes) (features : List Nat) (re
     (a : Archive) (h : tryInit H features read = .ok a) :
     (∃ r, a.banner = .ok r) ∧ (∃ cs, a.sourceChunks = some cs) ∧ (∃ ix, a.sourceIndex = some ix) ∧
     configAccepted a.config = true ∧ (∀ i ∈ a.sourceOrder, i < a.chunks.length) ∧
-    (∀ d ∈ a.chunks, 1 ≤ d.archiveSize ∧ d.archiveOffset ≤ usizeMax ∧ d.checksum.length ≤ 64) :=
+    (∀ d ∈ a.chunks, 1 ≤ d.archiveSize ∧ d.archiveOffset + d.archiveSize ≤ usizeMax ∧ d.checksum.length ≤ 64) :=
   ⟨(Proofs.accepted_banner_safe H features read a h).1, (Proofs.accepted_banner_safe H features read a h).2.1,
    (Proofs.accepted_banner_safe H features read a h).2.2,
    (Proofs.tryInit_ok_facts H features read a h).1, (Proofs.tryInit_ok_facts H features read a h).2.1,
    (Proofs.tryInit_ok_facts H features read a h).2.2.1⟩
+
+/-- **T2 (chunk ranges).**  Every `ChunkOffset::end()` - and hence every adjacent-run sum
+`offset + size` - the readers compute for a descriptor of an accepted archive fits 64 bits
+(`a.chunks` holds the absolute offsets `chunk_data_offset + archive_offset`): no overflow of the
+range arithmetic in the local or the HTTP chunk reader.  This holds because the end-offset check
+is in the source (`Gen.chunkEndOffsetChecked`, read on every run; F12 repair). -/
+theorem accepted_archive_ranges_fit_u64 (H : Bytes → Bytes) (features : List Nat)
+    (read : Nat → Nat → Option Bytes) (a : Archive) (h : tryInit H features read = .ok a) :
+    ∀ d ∈ a.chunks, (ChunkOffset.mk d.archiveOffset d.archiveSize).stop ≤ usizeMax :=
+  fun d hd => ((accepted_archive_is_safe H features read a h).2.2.2.2.2 d hd).2.1
 
 /-- **T2 (bounded work).**  Scanning any input with valid chunker parameters emits chunks of at
 least one byte each that tile the input: at most `|input|` chunks, whatever the read delivery. -/
@@ -130,7 +140,8 @@ def openDict (d : Proto.ChunkDictionary) : Bool :=
   | _ => false
 
 example :
-    -- rebuild index out of range; fixed size 0; window 0; filter bits 0 and 31; min > max; stored size 0
+    -- rebuild index out of range; fixed size 0; window 0; filter bits 0 and 31; min > max; stored size 0;
+    -- start of the chunk fits 64 bits (header 132 + offset = 2^64 - 3) but its end does not (F12)
     openDict { chunkerParams := some ⟨5, 1, 9, 3, 8, 1⟩, chunkCompression := some ⟨0, 0⟩, rebuildOrder := [1],
                chunkDescriptors := [⟨[1,2,3,4,5,6,7,8], 3, 0, 3⟩] } = true ∧
     openDict { chunkerParams := some ⟨0, 0, 0, 0, 8, 2⟩, chunkCompression := some ⟨0, 0⟩ } = true ∧
@@ -139,7 +150,24 @@ example :
     openDict { chunkerParams := some ⟨31, 1, 9, 3, 8, 1⟩, chunkCompression := some ⟨0, 0⟩ } = true ∧
     openDict { chunkerParams := some ⟨5, 10, 9, 3, 8, 1⟩, chunkCompression := some ⟨0, 0⟩ } = true ∧
     openDict { chunkerParams := some ⟨5, 1, 9, 3, 8, 1⟩, chunkCompression := some ⟨0, 0⟩, rebuildOrder := [0],
-               chunkDescriptors := [⟨[1,2,3,4,5,6,7,8], 0, 0, 3⟩] } = true := by
+               chunkDescriptors := [⟨[1,2,3,4,5,6,7,8], 0, 0, 3⟩] } = true ∧
+    openDict { chunkerParams := some ⟨5, 1, 9, 3, 8, 1⟩, chunkCompression := some ⟨0, 0⟩, rebuildOrder := [0],
+               chunkDescriptors := [⟨[1,2,3,4,5,6,7,8], 100, 2 ^ 64 - 135, 3⟩] } = true := by
+  decide +kernel
+
+/-- the end-offset check is sharp: that header is 132 bytes long; with a stored size of 2 the chunk
+ends exactly at `usizeMax` and the archive opens, with a stored size of 3 it is refused -/
+example :
+    (buildHeader toyH
+        { chunkerParams := some ⟨5, 1, 9, 3, 8, 1⟩, chunkCompression := some ⟨0, 0⟩, rebuildOrder := [0],
+          chunkDescriptors := [⟨[1,2,3,4,5,6,7,8], 2, 2 ^ 64 - 135, 3⟩] } none).length = 132 ∧
+    (match tryInit toyH [] (honestReadAt (buildHeader toyH
+        { chunkerParams := some ⟨5, 1, 9, 3, 8, 1⟩, chunkCompression := some ⟨0, 0⟩, rebuildOrder := [0],
+          chunkDescriptors := [⟨[1,2,3,4,5,6,7,8], 2, 2 ^ 64 - 135, 3⟩] } none)) with
+      | .ok a => a.chunks.map (fun d => (ChunkOffset.mk d.archiveOffset d.archiveSize).stop) == [usizeMax]
+      | _ => false) = true ∧
+    openDict { chunkerParams := some ⟨5, 1, 9, 3, 8, 1⟩, chunkCompression := some ⟨0, 0⟩, rebuildOrder := [0],
+               chunkDescriptors := [⟨[1,2,3,4,5,6,7,8], 3, 2 ^ 64 - 135, 3⟩] } = true := by
   decide +kernel
 
 /-- a RollSum window larger than the maximum chunk size is accepted, and valid -/
